@@ -6,6 +6,8 @@ the driver binary.  Cargo's own freshness cache is defeated by deleting the
 workspace members' fingerprints before each extraction, and the run asserts that
 every expected fact file was rewritten by this extraction.
 """
+import contextlib
+import fcntl
 import hashlib
 import json
 import os
@@ -66,10 +68,28 @@ def facts_dir(config, repo=REPO):
     return os.path.join(CACHE, "facts", config + tag)
 
 
+@contextlib.contextmanager
+def _locked(name):
+    """Serialises extractions that share one cargo target directory (two checks started at the same time, or a check of a scratch
+    worktree next to one of /repo): the fingerprint invalidation of one must not run under the other's cargo."""
+    os.makedirs(CACHE, exist_ok=True)
+    with open(os.path.join(CACHE, "extract-%s.lock" % name), "w") as lk:
+        fcntl.flock(lk, fcntl.LOCK_EX)
+        try:
+            yield
+        finally:
+            fcntl.flock(lk, fcntl.LOCK_UN)
+
+
 def extract(config="default", repo=REPO, force=False, quiet=False):
     """Returns (facts_dir, info dict). Re-extracts if the tree changed."""
     if config not in CONFIGS:
         raise ExtractError("unknown config " + config)
+    with _locked(config):
+        return _extract(config, repo, force, quiet)
+
+
+def _extract(config, repo, force, quiet):
     out = facts_dir(config, repo)
     want = tree_hash(repo, config)
     stamp = os.path.join(out, "STAMP.json")
@@ -120,6 +140,11 @@ def extract(config="default", repo=REPO, force=False, quiet=False):
 
 def extract_canary(force=False):
     """Facts of the positive-fixture crate fixtures/canary (E4); cached by the hash of its sources and the driver."""
+    with _locked("canary"):
+        return _extract_canary(force)
+
+
+def _extract_canary(force):
     src = os.path.join(VERIF, "fixtures", "canary")
     out = os.path.join(CACHE, "facts", "canary")
     want = tree_hash(src, "canary")
